@@ -54,6 +54,19 @@ Definition sp_aligned (k : cfg) (p align : N) : bool :=
 Definition sp_limit_ok (k : cfg) (lim : option N) (ab_before size : N) : bool :=
   match lim with None => true | Some L => ab_before + (size - k_footer k) <=? L end.
 
+(* ---- C18: a chunk obtained at the first attempt, with no limit set, at least doubles
+   the usable size of the chunk before it (and covers the request) ---- *)
+Definition sp_growth_ok (k : cfg) (lim : option N) (prev_size new_size req_size : N) : bool :=
+  match lim with
+  | Some _ => true
+  | None => (2 * (prev_size - k_footer k) <=? new_size - k_footer k) && (req_size <=? new_size - k_footer k)
+  end.
+
+(* ---- C10, byte-exact clause: in a history of uniform allocations the slices hold
+   exactly the bytes that were allocated since the last reset ---- *)
+Definition sp_iter_exact (slices : list (N * N)) (allocated : N) : bool :=
+  fold_left (fun a s => a + snd s) slices 0 =? allocated.
+
 (* ---- C10: shape of chunk iteration ---- *)
 Definition slice_ok (k : cfg) (g : gblock) (s : N * N) : bool :=
   (g_addr g <=? fst s) && (fst s + snd s =? g_addr g + (g_sz g - k_footer k)).
